@@ -112,7 +112,7 @@ func Payload(t *rapid.T, label string, max int) []byte {
 	if max < 16 {
 		max = 16
 	}
-	class := rapid.IntRange(0, 13).Draw(t, label+"_class")
+	class := rapid.IntRange(0, 15).Draw(t, label+"_class")
 	size := func(lo, hi int) int {
 		if hi > max {
 			hi = max
@@ -183,6 +183,24 @@ func Payload(t *rapid.T, label string, max int) []byte {
 			return Book(t, label, 33000, max)
 		}
 		return Book(t, label, 200, min(6000, max))
+	case 14, 15: // segments of different compressibility (an encoder switches block / chunk types between them)
+		k := rapid.IntRange(2, 4).Draw(t, label+"_nseg")
+		var out []byte
+		for i := 0; i < k; i++ {
+			lim := max / k
+			n := lim - rapid.IntRange(0, lim-1).Draw(t, fmt.Sprintf("%s_seglen%d", label, i)) // (rapid favours small values: long segments are the common case)
+			switch rapid.IntRange(0, 3).Draw(t, fmt.Sprintf("%s_segkind%d", label, i)) {
+			case 0:
+				out = append(out, pseudo(rapid.Uint32().Draw(t, fmt.Sprintf("%s_segseed%d", label, i)), n, 256)...)
+			case 1:
+				out = append(out, Book(t, fmt.Sprintf("%s_segbook%d", label, i), n, n)...)
+			case 2:
+				out = append(out, bytes.Repeat([]byte{byte(rapid.SampledFrom([]int{0, 0xFF, 'a'}).Draw(t, fmt.Sprintf("%s_segfill%d", label, i)))}, n)...)
+			default:
+				out = append(out, pseudo(rapid.Uint32().Draw(t, fmt.Sprintf("%s_segseed%d", label, i)), n, 4)...)
+			}
+		}
+		return out
 	default: // small structured
 		n := size(1, 300)
 		out := make([]byte, n)
